@@ -64,6 +64,8 @@ def gen_shape(rng, kind=None, rational=None, max_size=6, max_degree=3, dim=None,
     if kind == "volume":
         max_size = min(max_size, 4)
         max_degree = min(max_degree, 2)
+    if degrees is not None:
+        max_size = max(max_size, max(degrees) + 1)
     if degrees is None:
         degrees = [rng.randint(1, max_degree) for _ in range(nd)]
     if sizes is None:
@@ -104,11 +106,11 @@ class G:
         if cls.loaded:
             return cls
         from geomdl import BSpline, NURBS, operations, helpers, utilities, knotvector, evaluators, multi, \
-            tessellate, compatibility, convert, linalg, exchange, abstract
+            tessellate, compatibility, convert, linalg, exchange, abstract, voxelize
         cls.BSpline, cls.NURBS, cls.operations, cls.helpers = BSpline, NURBS, operations, helpers
         cls.utilities, cls.knotvector, cls.evaluators, cls.multi = utilities, knotvector, evaluators, multi
         cls.tessellate, cls.compatibility, cls.convert, cls.linalg = tessellate, compatibility, convert, linalg
-        cls.exchange, cls.abstract = exchange, abstract
+        cls.exchange, cls.abstract, cls.voxelize = exchange, abstract, voxelize
         cls.loaded = True
         return cls
 
